@@ -112,7 +112,23 @@ def witness_F8():
         return bool(exact and abs(kp.score(X)) > 1e-6)
 
 
-WITNESS = {'F11': witness_F11, 'F12': witness_F12, 'F14': witness_F14, 'F9': witness_F9, 'F8': witness_F8}
+def witness_F3():
+    import pykoop
+    X = np.array([[0., 10., -3.], [4., 20., 5.], [2., 15., 1.]])
+    g = pykoop.UniformRandomCenters(n_centers=5, random_state=3).fit(X)
+    un = (g.centers_ - g.range_min_) / (g.range_max_ - g.range_min_)
+    return bool(np.allclose(un[:, 0], un[:, 1], atol=1e-12) and np.allclose(un[:, 0], un[:, 2], atol=1e-12))
+
+
+def witness_F4():
+    import pykoop
+    import scipy.stats
+    X = np.array([[0., 1.], [1., 0.], [2., 2.]])
+    ka = pykoop.RandomFourierKernelApprox('laplacian', n_components=6, method='weight_offset', random_state=11).fit(X)
+    return bool(np.allclose(ka.random_offsets_ / (2 * np.pi), scipy.stats.cauchy.cdf(ka.random_weights_[0, :]), atol=1e-9))
+
+
+WITNESS = {'F3': witness_F3, 'F4': witness_F4, 'F11': witness_F11, 'F12': witness_F12, 'F14': witness_F14, 'F9': witness_F9, 'F8': witness_F8}
 
 
 def report_known(res, pid):
